@@ -13,7 +13,7 @@ from ..consteval import UNKNOWN, Regex
 from ..core import AnalysisError
 from ..refs import formats as ref
 from ..srcmodel import walk_own, const_str, FuncInfo
-from .common import unparse
+from .common import unparse, assignments_to
 from . import codecs, layouts as LY
 from .c18 import _region_sizes
 
@@ -328,25 +328,190 @@ def rule_layout(ctx, res):
                   sorted(missing)), mw['func'].loc)
 
 
+def _resolve_local(fnode, e, depth=0):
+    """follow single-assignment locals"""
+    while isinstance(e, ast.Name) and depth < 4:
+        binds = [v for (_s, v) in assignments_to(fnode, e.id)]
+        if len(binds) != 1 or binds[0] is None:
+            break
+        e = binds[0]
+        depth += 1
+    return e
+
+
+def _is_utf8_of_conversion(model, f, e, var):
+    """e == bytes(<p8scii_to_unicode>(var), 'utf-8') in any of its spellings"""
+    e = _resolve_local(f.node, e)
+    inner = None
+    if isinstance(e, ast.Call) and isinstance(e.func, ast.Name) and \
+            e.func.id == 'bytes' and e.args:
+        enc = e.args[1] if len(e.args) > 1 else next(
+            (k.value for k in e.keywords if k.arg == 'encoding'), None)
+        if const_str(enc) in ('utf-8', 'utf8', 'UTF-8'):
+            inner = e.args[0]
+    elif isinstance(e, ast.Call) and isinstance(e.func, ast.Attribute) and \
+            e.func.attr == 'encode':
+        enc = e.args[0] if e.args else next(
+            (k.value for k in e.keywords if k.arg == 'encoding'), None)
+        if enc is None or const_str(enc) in ('utf-8', 'utf8', 'UTF-8'):
+            inner = e.func.value
+    if inner is None:
+        return False
+    inner = _resolve_local(f.node, inner)
+    if not (isinstance(inner, ast.Call) and len(inner.args) == 1 and
+            isinstance(inner.args[0], ast.Name) and inner.args[0].id == var):
+        return False
+    r = model.resolve_expr(f.module, inner.func)
+    return bool(r and r[0] == 'func' and
+                r[1].qual == 'pico8.lua.lua:p8scii_to_unicode')
+
+
+def _subst(node, name, repl):
+    import copy
+
+    class T(ast.NodeTransformer):
+        def visit_Name(self, n):
+            if n.id == name and isinstance(n.ctx, ast.Load):
+                return copy.deepcopy(repl)
+            return n
+    return T().visit(copy.deepcopy(node))
+
+
+def rule_lua_lines(ctx, res):
+    """Lua section of the .p8 writer: every line converted, a missing final
+    newline -- and only a missing one -- supplied."""
+    from ..predlang import pred_lang, NotAPredicate
+    from ..lang import Lang
+    model = ctx.model
+    w = model.func(P8 + ':P8Formatter.to_file')
+    loops = []
+    for n in walk_own(w.node):
+        if isinstance(n, ast.For) and isinstance(n.iter, ast.Call) and \
+                isinstance(n.iter.func, ast.Attribute) and \
+                n.iter.func.attr == 'to_lines' and \
+                ast.unparse(n.iter.func.value).endswith('.lua') and \
+                isinstance(n.target, ast.Name):
+            writes = [c for c in walk_own(n) if isinstance(c, ast.Call) and
+                      isinstance(c.func, ast.Attribute) and
+                      c.func.attr == 'write']
+            if writes:
+                loops.append((n, writes))
+    if len(loops) != 1:
+        res.vanished('R-C03-text', w.qual, 'Lua line loop',
+                     'expected one loop writing the lines of game.lua, '
+                     'found {}'.format(len(loops)))
+        return
+    lp, writes = loops[0]
+    var = lp.target.id
+    conv = len(writes) == 1 and len(writes[0].args) == 1 and \
+        _is_utf8_of_conversion(model, w, writes[0].args[0], var) and \
+        any(s is writes[0]._parent for s in lp.body
+            if isinstance(s, ast.Expr))
+    res.check(conv, 'R-C03-text', w.qual,
+              'every Lua line written once as UTF-8 of p8scii_to_unicode',
+              '', 'a Lua line is written {} / not as bytes('
+              'p8scii_to_unicode(line), utf-8) / conditionally'.format(
+                  '{} times'.format(len(writes))), w.module.loc(lp))
+    # the statement that supplies the final newline
+    parent = lp._parent
+    body = parent.body if lp in getattr(parent, 'body', []) else None
+    fix = None
+    if body is not None:
+        for st in body[body.index(lp) + 1:]:
+            if isinstance(st, ast.If) and not st.orelse and \
+                    len(st.body) == 1 and isinstance(st.body[0], ast.Expr) \
+                    and isinstance(st.body[0].value, ast.Call) and \
+                    isinstance(st.body[0].value.func, ast.Attribute) and \
+                    st.body[0].value.func.attr == 'write' and \
+                    st.body[0].value.args and \
+                    const_str(st.body[0].value.args[0]) == b'\n':
+                fix = st
+                break
+            if isinstance(st, ast.Expr) and isinstance(st.value, ast.Call) \
+                    and isinstance(st.value.func, ast.Attribute) and \
+                    st.value.func.attr == 'write':
+                break                      # next section begins
+    if fix is None:
+        res.violation('R-C03-text', w.qual,
+                      'a missing final newline is supplied',
+                      'no `if <last line lacks a newline>: write(b"\\n")` '
+                      'follows the Lua lines: the next section header is '
+                      'glued to the last code line', w.module.loc(lp))
+        return
+    # language of last lines for which the newline is added
+    test = fix.test
+    names = {x.id for x in walk_own(test) if isinstance(x, ast.Name)}
+    added = None
+    why = ''
+    try:
+        if len(names) == 1:
+            nm = names.pop()
+            inloop = [(st, v) for (st, v) in assignments_to(w.node, nm)
+                      if any(st is x for x in walk_own(lp))]
+            if len(inloop) == 1 and inloop[0][1] is not None:
+                e = inloop[0][1]
+                if isinstance(e, ast.Name) and e.id == var:
+                    added = pred_lang(test, nm)
+                else:
+                    try:
+                        pl = pred_lang(e, var)
+                    except NotAPredicate:
+                        pl = None
+                    if pl is not None:
+                        # test is `flag` / `not flag`
+                        t = test
+                        neg = False
+                        while isinstance(t, ast.UnaryOp) and \
+                                isinstance(t.op, ast.Not):
+                            neg = not neg
+                            t = t.operand
+                        if isinstance(t, ast.Name):
+                            added = pl.complement() if neg else pl
+                        elif isinstance(t, ast.Compare) and \
+                                len(t.ops) == 1 and isinstance(
+                                    t.comparators[0], ast.Constant) and \
+                                isinstance(t.comparators[0].value, bool) or \
+                                (isinstance(t, ast.Compare) and
+                                 t.comparators[0].value is None
+                                 if isinstance(t, ast.Compare) and
+                                 isinstance(t.comparators[0], ast.Constant)
+                                 else False):
+                            c = t.comparators[0].value
+                            isop = isinstance(t.ops[0], (ast.Is, ast.Eq))
+                            if c is True:
+                                added = pl if isop else pl.complement()
+                            elif c is False:
+                                added = pl.complement() if isop else pl
+                            if added is not None and neg:
+                                added = added.complement()
+    except NotAPredicate as ex:
+        why = str(ex)
+    if added is None:
+        res.undecided('R-C03-text', w.qual,
+                      'a missing final newline is supplied',
+                      'the newline test is outside the predicate model: ' +
+                      (why or ast.unparse(test)[:60]), w.module.loc(fix))
+        return
+    want = Lang.all_strings().concat(Lang.literal(b'\n')).complement()
+    # the lexer never yields an empty line; ignore the empty string
+    d = added.union(Lang.literal(b'')).difference_witness(
+        want.union(Lang.literal(b'')))
+    res.check(d is None, 'R-C03-text', w.qual,
+              'a missing final newline -- and only a missing one -- is '
+              'supplied', 'newline added iff the last line does not end in '
+              '\\n (language equality)',
+              'when the last Lua line is {!r} the newline is {}: {}'.format(
+                  d[0], 'added although the line has one' if d and
+                  d[1] == 'left' else 'NOT added', 'the next section header '
+                  'is glued to the code' if d and d[1] == 'right' else
+                  'an extra blank line appears') if d else '',
+              w.module.loc(fix))
+
+
 def rule_text(ctx, res):
     model = ctx.model
     w = model.func(P8 + ':P8Formatter.to_file')
-    src = ast.unparse(w.node).replace(' ', '')
-    conv = "outstr.write(bytes(lua.p8scii_to_unicode(line),'utf-8'))" in src
-    flag = "ended_in_newline=line.endswith(b'\\n')" in src and \
-        "ifnotended_in_newline:" in src
-    fix_nl = False
-    for n in walk_own(w.node):
-        if isinstance(n, ast.If) and ast.unparse(n.test).replace(
-                ' ', '') == 'notended_in_newline':
-            fix_nl = len(n.body) == 1 and "write(b'\\n')" in ast.unparse(
-                n.body[0]).replace(' ', '') and not n.orelse
-    res.check(conv and flag and fix_nl, 'R-C03-text', w.qual,
-              'Lua lines converted and a missing final newline supplied',
-              'p8scii_to_unicode + UTF-8; newline added iff the last line '
-              'had none',
-              'Lua section writing changed: convert={} flag={} '
-              'newline-fix={}'.format(conv, flag, fix_nl), w.loc)
+    rule_lua_lines(ctx, res)
     lab = False
     for n in w.node.body:
         if isinstance(n, ast.If) and ast.unparse(n.test) == 'game.label':
